@@ -27,6 +27,40 @@ import traceback
 from .common import dump_json, ROOT
 
 
+class _CaseTimeout(BaseException):
+    """not an Exception: the `except Exception` guards of the implementation must not swallow it"""
+
+
+class _watchdog(object):
+    """per-case wall-clock limit (SIGALRM, main thread only); a module that arms its own alarm inside
+    run_case simply replaces this one for that case"""
+
+    def __init__(self, seconds):
+        self.seconds = seconds
+
+    def __enter__(self):
+        import signal
+        self.old = None
+        try:
+            def fire(signum, frame):
+                raise _CaseTimeout()
+            self.old = signal.signal(signal.SIGALRM, fire)
+            signal.setitimer(signal.ITIMER_REAL, self.seconds)
+        except (ValueError, OSError, AttributeError):
+            self.old = None
+        return self
+
+    def __exit__(self, *a):
+        import signal
+        try:
+            signal.setitimer(signal.ITIMER_REAL, 0)
+            if self.old is not None:
+                signal.signal(signal.SIGALRM, self.old)
+        except (ValueError, OSError, AttributeError):
+            pass
+        return False
+
+
 def _maybe_coverage():
     """VERIF_COVERAGE=<dir>: measure which lines / branches of stackscope this child executes (a development
     aid for finding blind spots of the generators; never set by the registered commands)"""
@@ -80,6 +114,7 @@ def main() -> None:
     samples = []
     evaluated = []
     n_eval = 0
+    case_limit = int(os.environ.get("VERIF_CASE_LIMIT", getattr(mod, "CASE_LIMIT", 240)))
     for d in descs:
         key = json.dumps(d, sort_keys=True)
         if key in seen:
@@ -87,7 +122,15 @@ def main() -> None:
         seen.add(key)
         dump_json(progress, {"current": d, "n": n_eval})
         try:
-            obs = mod.run_case(d)
+            with _watchdog(case_limit):
+                obs = mod.run_case(d)
+        except _CaseTimeout:
+            # the implementation did not return on this input (a change can make a loop non-terminating):
+            # reported for this input, and the run goes on with the next one
+            direct.append({"what": "the implementation did not return within %d s on this input (non-termination?)" % case_limit,
+                           "input": d, "observed": {"timeout_s": case_limit}})
+            n_eval += 1
+            continue
         except BaseException as ex:  # harness or implementation blew up: fail closed
             if getattr(ex, "harness_only", False):
                 # the harness can no longer take the source apart (e.g. snippets.SnippetError): this input is
@@ -134,7 +177,13 @@ def main() -> None:
             d2 = dict(d, _repeat=1)
             dump_json(progress, {"current": d2, "n": n_eval})
             try:
-                obs = mod.run_case(d)
+                with _watchdog(case_limit):
+                    obs = mod.run_case(d)
+            except _CaseTimeout:
+                direct.append({"what": "the implementation did not return within %d s when this input was run a second time "
+                                       "in the same process" % case_limit, "input": d2, "observed": {"timeout_s": case_limit}})
+                n_eval += 1
+                continue
             except BaseException as ex:
                 if getattr(ex, "harness_only", False):
                     continue
